@@ -28,6 +28,7 @@ package memfs
 import (
 	"io/fs"
 	"os"
+	"strings"
 	"time"
 
 	"github.com/avfs/avfs"
@@ -816,6 +817,11 @@ func (vfs *MemFS) Rename(oldpath, newpath string) error {
 
 	switch oChild.(type) {
 	case *dirNode:
+		if strings.HasPrefix(nPI.Path(), oPI.Path()+string(vfs.PathSeparator())) {
+			// A directory can't be moved to a subdirectory of itself.
+			return &os.LinkError{Op: op, Old: oldpath, New: newpath, Err: vfs.err.InvalidArgument}
+		}
+
 		if !vfs.isNotExist(nErr) {
 			if vfs.OSType() == avfs.OsWindows {
 				nErr = avfs.ErrWinAccessDenied
